@@ -225,6 +225,8 @@ var detTemplates = []detTemplate{
 	{name: "labels", args: []string{"labels", "-i", "@one.nw", "--internal", "--seed", "@SEED"}, stdout: true},
 	{name: "divide", args: []string{"divide", "-i", "@trees.nw", "--seed", "@SEED", "-o", "@OUTPREFIX"}},
 	{name: "reformat-nexus", args: []string{"reformat", "nexus", "-i", "@trees.nw", "--seed", "@SEED", "-o", "@OUT"}},
+	{name: "reformat-newick-from-nextstrain", args: []string{"reformat", "newick", "-i", "@ns.json", "-f", "nextstrain", "--seed", "@SEED", "-o", "@OUT"}},
+	{name: "reformat-nexus-from-nextstrain", args: []string{"reformat", "nexus", "-i", "@ns.json", "-f", "nextstrain", "--seed", "@SEED", "-o", "@OUT"}},
 	{name: "reformat-phyloxml", args: []string{"reformat", "phyloxml", "-i", "@trees.nw", "--seed", "@SEED", "-o", "@OUT"}},
 	{name: "reformat-newick-from-nexus", args: []string{"reformat", "newick", "-i", "@trees.nx", "-f", "nexus", "--seed", "@SEED", "-o", "@OUT"}},
 	{name: "consensus", args: []string{"compute", "consensus", "-i", "@trees.nw", "-f", "0.5", "--seed", "@SEED", "-o", "@OUT"}},
@@ -396,6 +398,26 @@ func genDetFiles(rt *rapid.T) map[string]string {
 	files["tips.txt"] = "t0\nt2\nt3\n"
 	files["groups.txt"] = "t0,n0a,n0b\nt3,n3a\n"
 	files["annot.txt"] = "anc1:t0,t1\nanc2:t2,t3,t4\n"
+	// a Nextstrain export without the "aa" label: mutations of several genes on the same branch
+	files["ns.json"] = `{"version":"v2","meta":{"title":"t"},"tree":{"name":"NODE_0","node_attrs":{"div":0},"children":[` +
+		`{"name":"t0","node_attrs":{"div":1.5},"branch_attrs":{"mutations":{"nuc":["A1T","C22G"],"S":["D614G"],"ORF1a":["T265I","P4715L"],"N":["R203K","G204R"],"E":["P71L"],"M":["I82T"]}}},` +
+		`{"name":"NODE_1","node_attrs":{"div":0.25},"branch_attrs":{"labels":{"aa":"S: N501Y; N: D3L"},"mutations":{"nuc":["G3A"],"S":["N501Y"],"N":["D3L"]}},"children":[` +
+		`{"name":"t1","node_attrs":{"div":1},"branch_attrs":{"mutations":{"ORF3a":["Q57H"],"ORF8":["L84S"],"ORF1b":["P314L"],"S":["A222V"]}}},{"name":"t2","node_attrs":{"div":2}}]}]}}`
+	if rapid.Bool().Draw(rt, "nondyadic") {
+		// lengths whose sums depend on the order of the additions
+		re := regexp.MustCompile(`:[0-9]+(\.[0-9]+)?`)
+		for name, text := range files {
+			if strings.HasSuffix(name, ".nw") || strings.HasSuffix(name, ".nx") {
+				files[name] = re.ReplaceAllStringFunc(text, func(m string) string {
+					v, err := strconv.ParseFloat(m[1:], 64)
+					if err != nil {
+						return m
+					}
+					return ":" + strconv.FormatFloat(v/3+0.1, 'g', -1, 64)
+				})
+			}
+		}
+	}
 	return files
 }
 
